@@ -157,7 +157,7 @@ def main():
         g = docgen.Gen(rng, style_density=(0.10, 0.2, 0.3)[k % 3], anim_density=(0.0, 0.03, 0.06)[k % 3], display_p=0.02,
                        ruby_p=0.2, region_ref_p=0.15, timing_p=0.15)
         g.force_initial_direction = (k % 4 == 0)
-        if k % 4 == 0: g.ruby_p = 0.0; g.tp = 0.05; g.dp = 0.0
+        if k % 4 == 0: g.ruby_p = 0.0; g.tp = 0.05; g.dp = 0.0; g.rrp = 0.6   # content mostly assigned to a region, so that what the region derives is seen
         d = g.doc(nreg=rng.choice([0, 1, 1, 2]))
         boost(rng, d, k)
         src, parent = {}, {}
